@@ -2259,6 +2259,11 @@ func (f *fragment) importValue(columnIDs []uint64, values []int64, bitDepth uint
 		_ = f.openStorage(true)
 		return err
 	}
+	// Invalidate the block checksums of every row a value write touches.
+	for i := uint(0); i < bitDepth+bsiOffsetBit; i++ {
+		delete(f.checksums, int(uint64(i)/HashBlockSize))
+	}
+
 	// We don't actually care, except we want our stats to be accurate.
 	f.incrementOpN(totalChanges)
 
